@@ -118,7 +118,9 @@ package lexer
 //@   invariant [bounds] 0 <= s.current && s.current <= len(s.source) && s.source == old(s.source)
 //@   invariant [line] s.line == 1 + nl(s.source, s.current) && s.line >= 1
 //@   invariant [tokens] forall(k, 0, len(s.tokens), s.tokens[k].Type != token.EOF && 1 <= s.tokens[k].Line && s.tokens[k].Line <= s.line)
+//@   invariant [errs] stderrN >= old(stderrN) && (old(utils.HadError) ==> utils.HadError) && (!utils.HadError ==> stderrN == old(stderrN))
 //@   decreases len(s.source) - s.current
+//@ ensures [errs] stderrN >= old(stderrN) && (old(utils.HadError) ==> utils.HadError) && (!utils.HadError ==> stderrN == old(stderrN))
 //@ ensures [consumed] s.current == len(s.source) && s.line == 1 + nl(s.source, len(s.source))
 //@ ensures [eof] len(result) >= 1 && result[len(result)-1].Type == token.EOF && result[len(result)-1].Line == 1 + nl(s.source, len(s.source))
 //@ ensures [oneeof] forall(k, 0, len(result)-1, result[k].Type != token.EOF && 1 <= result[k].Line && result[k].Line <= 1 + nl(s.source, len(s.source)))
